@@ -153,6 +153,8 @@ def concObs (mode : String) (w : W) (sig : Sig) (calls : List (Val × List Val))
 def runSteps (mode : String) (sig : Sig) : Option W → List DStep → List String → List String
   | _, [], acc => acc
   | none, .clause c :: rest, acc =>
+    -- only a When made by CreateWhen directly (eval mode) can start with In
+    if mode != "eval" && (match c with | .isIn _ => true | _ => false) then ["bad-op"] else
     match first sig c with
     | .ok w => runSteps mode sig (some w) rest (acc ++ ["ok"])
     | .error e => acc ++ [s!"panic:{errName e}", "stop"]
